@@ -19,6 +19,9 @@ type FuncResult struct {
 }
 
 func (e *Eval) bindParams(env *Env, fr *Frame) {
+	for n, tv := range fr.extraBinds {
+		env.vars[n] = tv
+	}
 	for i, p := range fr.fn.Params {
 		if i < len(fr.params) {
 			env.bind(p.Name(), fr.params[i], p.Type())
@@ -87,6 +90,27 @@ func VerifyFunc(p *Program, key string, fn *ssa.Function, k *Contract) *FuncResu
 		args = append(args, Val{T: v})
 	}
 	fr.params = args
+	c.DeclComp("$didpanic", "Bool")
+	c.Assert(not(c.Get(e.entry, "$didpanic")))
+	if k.Kind == "interface" && len(args) > 0 {
+		// implementation checked against the interface method's contract
+		fr.extraBinds = map[string]TV{}
+		rt := fn.Params[0].Type()
+		it := k.IfaceType
+		fr.extraBinds["recv"] = TV{T: fmt.Sprintf("(mk-iface %s %s)", c.TypeTag(rt), c.Box(rt, args[0].T)), Ty: it}
+		for i := 1; i < len(fn.Params); i++ {
+			n := ""
+			if i-1 < len(k.Params) {
+				n = k.Params[i-1]
+			} else if k.IfaceSig != nil && i-1 < k.IfaceSig.Params().Len() {
+				n = k.IfaceSig.Params().At(i - 1).Name()
+			}
+			if n != "" && n != "_" {
+				fr.extraBinds[n] = TV{T: args[i].T, Ty: fn.Params[i].Type()}
+			}
+			fr.extraBinds[fmt.Sprintf("arg%d", i-1)] = TV{T: args[i].T, Ty: fn.Params[i].Type()}
+		}
+	}
 	for _, pn := range k.Provenance {
 		for i, prm := range fn.Params {
 			if prm.Name() == pn && i < len(args) {
@@ -179,6 +203,18 @@ func VerifyFunc(p *Program, key string, fn *ssa.Function, k *Contract) *FuncResu
 	} else if oc.PanicCond != "false" {
 		e.obls = append(e.obls, &Obligation{Name: "cover/panic-exit", Props: props, Kind: "cover", Goal: oc.PanicCond, Reach: "true", Mark: c.Mark(), Cover: true, Clause: "requires and an exit are jointly satisfiable"})
 	}
+	if k.Kind == "interface" {
+		// the implementation's own contract already covers call sites, loops,
+		// locks; here only the interface's postconditions are at stake
+		var keep []*Obligation
+		for _, o := range e.obls {
+			switch o.Kind {
+			case "ensures", "panic-ensures", "nopanic", "cover":
+				keep = append(keep, o)
+			}
+		}
+		e.obls = keep
+	}
 	return &FuncResult{Key: key, Contract: k, Obls: e.obls, Ctx: c, Unsupported: c.unsupported, CallLog: e.callLog}
 }
 
@@ -202,6 +238,13 @@ func (e *Eval) computeAllowed(k *Contract, env *Env) {
 				if sl, ok := tv.Ty.Underlying().(*types.Slice); ok {
 					comp := e.elemComp(sl.Elem())
 					e.allowedIdx[comp] = append(e.allowedIdx[comp], "(s.arr "+tv.T+")")
+				}
+			}
+		case strings.HasPrefix(m, "implsof(") && strings.HasSuffix(m, ")"):
+			for _, t := range e.implsOf(env, m[8:len(m)-1]) {
+				stt := t.Underlying().(*types.Struct)
+				for i := 0; i < stt.NumFields(); i++ {
+					e.allowedAll[fieldComp(t, i)] = true
 				}
 			}
 		case strings.HasPrefix(m, "maps(") && strings.HasSuffix(m, ")"):
